@@ -295,6 +295,78 @@ func tunablesMode(depth int, w *json.Encoder) {
 	w.Encode(map[string]any{"sequences": n, "files": len(files), "violations": vs, "alphabet": tunablesAlphabet, "table": table})
 }
 
+// extrasAlphabet: spellings the main alphabet leaves out -- quoted values (the quotes delimit a value, they are not part of
+// it), a value that is a label and holds //, trailing comments on non-variable lines (also with a bracket), a comment line
+// whose text also ends an earlier line, the empty comment. Every sequence is judged by apparmor_parser itself (python side).
+var extrasAlphabet = []string{
+	`@{q} = "/o p" /r`,
+	`@{q} += "/s t"`,
+	`@{exec_path} = @{q}/e`,
+	`@{exec_path} = "/x y/@{q}"`,
+	`@{n} = "Foo Bar" foo`,
+	`@{exec_path} = /opt/@{n}/@{q}`,
+	`@{l} = sys//&unc`,
+	`@{m} = @{l} other`,
+	`alias /opt/ -> /mnt/opt/, # a comment`,
+	`# a comment`,
+	`#`,
+	`abi <abi/3.0>, # needed`,
+	`include if exists <tunables/none.d> # a) note`,
+	`@{exec_path} = /bin/e`,
+}
+
+func extrasMode(maxLen int, w *json.Encoder) {
+	lines := make([]string, 0, 8)
+	enum.Perms(len(extrasAlphabet), maxLen, 0, 1, func(seq []int) {
+		lines = lines[:0]
+		kinds := map[string]int{}
+		for _, i := range seq {
+			l := extrasAlphabet[i]
+			lines = append(lines, l)
+			switch {
+			case strings.HasPrefix(l, "#"):
+				kinds["comment"]++
+			case strings.HasPrefix(l, "abi"):
+				kinds["abi"]++
+			case strings.HasPrefix(l, "include"):
+				kinds["include"]++
+			case strings.HasPrefix(l, "alias"):
+				kinds["alias"]++
+			}
+		}
+		out := map[string]any{"lines": append([]string{}, lines...), "kinds": kinds}
+		func() {
+			defer func() {
+				if p := recover(); p != nil {
+					out["panic"] = fmt.Sprint(p)
+				}
+			}()
+			f := aa.NewAppArmorProfile()
+			if _, e := f.Parse(strings.Join(lines, "\n") + "\nprofile p @{exec_path} {\n}\n"); e != nil {
+				out["perr"] = e.Error()
+				return
+			}
+			before := nonVar(f.Preamble)
+			out["before"] = before
+			if e := f.Resolve(); e != nil {
+				out["rerr"] = e.Error()
+				return
+			}
+			out["after"] = nonVar(f.Preamble)
+			vars := map[string][]string{}
+			for _, v := range f.Preamble.GetVariables() {
+				vars[v.Name] = append(vars[v.Name], v.Values...)
+			}
+			out["vars"] = vars
+			if len(f.Profiles) > 0 {
+				out["att"] = f.Profiles[0].Attachments
+				out["header"] = f.Profiles[0].GetAttachments()
+			}
+		}()
+		w.Encode(out)
+	})
+}
+
 func main() {
 	maxLen := flag.Int("len", 4, "max number of preamble lines")
 	shard := flag.Int("shard", 0, "")
@@ -303,8 +375,18 @@ func main() {
 	tun := flag.Int("tunables", 0, "history depth of the built-in-table mode (0 = off)")
 	probe := flag.Bool("probe-cycle", false, "resolve a two-variable cycle with a small stack limit and say what happened")
 	cycles := flag.Bool("cycles", false, "extend the alphabet by a two-variable cycle (only when the probe says Resolve survives it)")
+	extras := flag.Bool("extras", false, "dump what the real code makes of every sequence over the extras alphabet")
 	flag.Parse()
-	w := json.NewEncoder(os.Stdout)
+	// the library prints diagnostics ("Unknown rule: ...") on stdout: keep the result stream clean
+	realOut := os.Stdout
+	if null, e := os.OpenFile(os.DevNull, os.O_WRONLY, 0); e == nil {
+		os.Stdout = null
+	}
+	w := json.NewEncoder(realOut)
+	if *extras {
+		extrasMode(*maxLen, w)
+		return
+	}
 	if *probe {
 		// an unbounded mutual expansion must end in an error; a Go stack overflow is fatal (not recoverable), so this
 		// runs in its own process with a small stack limit and the parent reads the exit status
@@ -312,13 +394,13 @@ func main() {
 		f := aa.NewAppArmorProfile()
 		_, perr := f.Parse("@{p} = @{q}/1\n@{q} = @{p}/2\n@{exec_path} = /bin/e\nprofile p @{exec_path} {\n}\n")
 		if perr != nil {
-			fmt.Println("parse-error: " + perr.Error())
+			fmt.Fprintln(realOut, "parse-error: "+perr.Error())
 			return
 		}
 		if rerr := f.Resolve(); rerr != nil {
-			fmt.Println("error: " + rerr.Error())
+			fmt.Fprintln(realOut, "error: "+rerr.Error())
 		} else {
-			fmt.Println("no-error")
+			fmt.Fprintln(realOut, "no-error")
 		}
 		return
 	}
